@@ -285,3 +285,374 @@ Proof.
   unfold efact. destruct per; cbn [n1 Rops]; [lra|].
   destruct ((i =? 0)%Z || (i =? n - 1)%Z); unfold nhalf; cbn [n1 ndiv nofZ Rops]; lra.
 Qed.
+
+(* ================================================================== the Laplacian of atimes, two dimensions *)
+Section Lap2.
+  Variable sh : shape2 (T:=R).
+  Hypothesis Hnx : (0 < nxg sh)%Z.
+  Hypothesis Hny : (0 < nyg sh)%Z.
+  Notation Nx := (npmf (px sh) (nxg sh)).
+  Notation Ny := (npmf (py sh) (nyg sh)).
+  Notation ffx := (1 / (wx sh * wx sh)).
+  Notation ffy := (1 / (wy sh * wy sh)).
+  Notation ex := (efact Rops (px sh) Nx).
+  Notation ey := (efact Rops (py sh) Ny).
+
+  Lemma Nx_pos : (0 < Nx)%Z. Proof. apply npmf_pos; auto. Qed.
+  Lemma Ny_pos : (0 < Ny)%Z. Proof. apply npmf_pos; auto. Qed.
+  Lemma Nx_np : px sh = false -> (2 <= Nx)%Z. Proof. intros H. rewrite H. unfold npmf. lia. Qed.
+  Lemma Ny_np : py sh = false -> (2 <= Ny)%Z. Proof. intros H. rewrite H. unfold npmf. lia. Qed.
+
+  (* <x, y> over the PMF grid, summed in storage order *)
+  Definition dot2 (x y : ix2 -> R) : R := lsumR (fun p => x p * y p) (all_ix2 sh).
+
+  (* the quadratic form: squared forward differences, those along a non-periodic boundary halved *)
+  Definition Q2 (x y : ix2 -> R) : R :=
+    ffx * zsum (fun j => ey j * energy1 (px sh) Nx (fun i => x (i, j)) (fun i => y (i, j))) Ny +
+    ffy * zsum (fun i => ex i * energy1 (py sh) Ny (fun j => x (i, j)) (fun j => y (i, j))) Nx.
+
+  Lemma atimes2_eq A i j :
+    atimes2 Rops sh A (i, j) = ey j * ffx * lap1 Rops (px sh) Nx (fun i' => A (i', j)) i +
+                              ex i * ffy * lap1 Rops (py sh) Ny (fun j' => A (i, j')) j.
+  Proof. reflexivity. Qed.
+
+  Lemma dot2_atimes x y : dot2 x (atimes2 Rops sh y) = - Q2 x y.
+  Proof.
+    unfold dot2, Q2. rewrite lsumR_all_ix2.
+    rewrite (zsum_ext _ (fun i => zsum (fun j => x (i, j) * (ey j * ffx * lap1 Rops (px sh) Nx (fun i' => y (i', j)) i)) Ny +
+                                  zsum (fun j => x (i, j) * (ex i * ffy * lap1 Rops (py sh) Ny (fun j' => y (i, j')) j)) Ny)).
+    2:{ intros i Hi. rewrite <- zsum_plus. apply zsum_ext. intros j Hj. rewrite atimes2_eq. ring. }
+    rewrite zsum_plus.
+    assert (H1 : zsum (fun i => zsum (fun j => x (i, j) * (ey j * ffx * lap1 Rops (px sh) Nx (fun i' => y (i', j)) i)) Ny) Nx =
+                 - (ffx * zsum (fun j => ey j * energy1 (px sh) Nx (fun i => x (i, j)) (fun i => y (i, j))) Ny)).
+    { rewrite zsum_swap.
+      transitivity (zsum (fun j => (- ffx) * (ey j * energy1 (px sh) Nx (fun i => x (i, j)) (fun i => y (i, j)))) Ny);
+        [|rewrite zsum_scal; ring].
+      apply zsum_ext. intros j Hj.
+      rewrite (zsum_ext _ (fun i => (ey j * ffx) * (x (i, j) * lap1 Rops (px sh) Nx (fun i' => y (i', j)) i))) by (intros; ring).
+      rewrite zsum_scal.
+      pose proof (lap1_energy (px sh) Nx (fun i => x (i, j)) (fun i => y (i, j)) Nx_pos Nx_np) as E. cbv beta in E.
+      rewrite E. ring. }
+    assert (H2 : zsum (fun i => zsum (fun j => x (i, j) * (ex i * ffy * lap1 Rops (py sh) Ny (fun j' => y (i, j')) j)) Ny) Nx =
+                 - (ffy * zsum (fun i => ex i * energy1 (py sh) Ny (fun j => x (i, j)) (fun j => y (i, j))) Nx)).
+    { transitivity (zsum (fun i => (- ffy) * (ex i * energy1 (py sh) Ny (fun j => x (i, j)) (fun j => y (i, j)))) Nx);
+        [|rewrite zsum_scal; ring].
+      apply zsum_ext. intros i Hi.
+      rewrite (zsum_ext _ (fun j => (ex i * ffy) * (x (i, j) * lap1 Rops (py sh) Ny (fun j' => y (i, j')) j))) by (intros; ring).
+      rewrite zsum_scal.
+      pose proof (lap1_energy (py sh) Ny (fun j => x (i, j)) (fun j => y (i, j)) Ny_pos Ny_np) as E. cbv beta in E.
+      rewrite E. ring. }
+    rewrite H1, H2. ring.
+  Qed.
+
+  Lemma Q2_sym x y : Q2 x y = Q2 y x.
+  Proof.
+    unfold Q2. f_equal; f_equal; apply zsum_ext; intros k Hk; rewrite energy1_sym; reflexivity.
+  Qed.
+
+  Lemma dot2_comm x y : dot2 x y = dot2 y x.
+  Proof. unfold dot2. apply lsumR_ext. intros; ring. Qed.
+
+  (* the matrix of atimes is symmetric: the precondition of the conjugate-gradient solver *)
+  Lemma laplacian_symmetric2 x y : dot2 x (atimes2 Rops sh y) = dot2 (atimes2 Rops sh x) y.
+  Proof. rewrite dot2_atimes, (dot2_comm (atimes2 Rops sh x) y), dot2_atimes, Q2_sym. reflexivity. Qed.
+
+  (* constants are in its kernel, at every point *)
+  Lemma laplacian_kernel2 c p : atimes2 Rops sh (fun _ => c) p = 0.
+  Proof. destruct p as [i j]. rewrite atimes2_eq, !lap1_const. ring. Qed.
+
+  Lemma atimes2_linear f g c p :
+    atimes2 Rops sh (fun q => f q + c * g q) p = atimes2 Rops sh f p + c * atimes2 Rops sh g p.
+  Proof.
+    destruct p as [i j]. rewrite !atimes2_eq.
+    rewrite (lap1_linear (px sh) Nx (fun i' => f (i', j)) (fun i' => g (i', j))).
+    rewrite (lap1_linear (py sh) Ny (fun j' => f (i, j')) (fun j' => g (i, j'))). ring.
+  Qed.
+
+  Lemma atimes2_ext f g p : in_pmf2 sh p -> (forall q, in_pmf2 sh q -> f q = g q) ->
+    atimes2 Rops sh f p = atimes2 Rops sh g p.
+  Proof.
+    intros [Hp1 Hp2] H. destruct p as [i j]. cbn [fst snd] in *. rewrite !atimes2_eq.
+    rewrite (lap1_ext (px sh) Nx (fun i' => f (i', j)) (fun i' => g (i', j)) i Nx_pos Nx_np Hp1)
+      by (intros k Hk; apply H; split; cbn [fst snd]; lia).
+    rewrite (lap1_ext (py sh) Ny (fun j' => f (i, j')) (fun j' => g (i, j')) j Ny_pos Ny_np Hp2)
+      by (intros k Hk; apply H; split; cbn [fst snd]; lia).
+    reflexivity.
+  Qed.
+
+  (* negative semi-definite, and the kernel is exactly the constants (non-zero widths) *)
+  Hypothesis Hwx : wx sh <> 0.
+  Hypothesis Hwy : wy sh <> 0.
+
+  Lemma ffx_pos : 0 < ffx.
+  Proof. apply Rdiv_lt_0_compat; [lra|]. pose proof (sq_nonneg (wx sh)). destruct (Req_dec (wx sh * wx sh) 0) as [E|E]; [apply sq_zero in E; contradiction | lra]. Qed.
+  Lemma ffy_pos : 0 < ffy.
+  Proof. apply Rdiv_lt_0_compat; [lra|]. pose proof (sq_nonneg (wy sh)). destruct (Req_dec (wy sh * wy sh) 0) as [E|E]; [apply sq_zero in E; contradiction | lra]. Qed.
+
+  Lemma Q2_nonneg x : 0 <= Q2 x x.
+  Proof.
+    unfold Q2. apply Rplus_le_le_0_compat; apply Rmult_le_pos;
+      try (left; first [apply ffx_pos | apply ffy_pos]);
+      apply zsum_nonneg; intros k Hk; apply Rmult_le_pos; try (left; apply efact_pos); apply energy1_nonneg.
+  Qed.
+
+  Lemma laplacian_negative_semidefinite2 x : dot2 x (atimes2 Rops sh x) <= 0.
+  Proof. rewrite dot2_atimes. pose proof (Q2_nonneg x). lra. Qed.
+
+  Lemma Q2_zero_const x : Q2 x x = 0 -> forall p, in_pmf2 sh p -> x p = x (0, 0)%Z.
+  Proof.
+    intros E. unfold Q2 in E.
+    set (S1 := zsum (fun j => ey j * energy1 (px sh) Nx (fun i => x (i, j)) (fun i => x (i, j))) Ny) in *.
+    set (S2 := zsum (fun i => ex i * energy1 (py sh) Ny (fun j => x (i, j)) (fun j => x (i, j))) Nx) in *.
+    assert (P1 : forall j, (0 <= j < Ny)%Z -> 0 <= ey j * energy1 (px sh) Nx (fun i => x (i, j)) (fun i => x (i, j)))
+      by (intros; apply Rmult_le_pos; [left; apply efact_pos | apply energy1_nonneg]).
+    assert (P2 : forall i, (0 <= i < Nx)%Z -> 0 <= ex i * energy1 (py sh) Ny (fun j => x (i, j)) (fun j => x (i, j)))
+      by (intros; apply Rmult_le_pos; [left; apply efact_pos | apply energy1_nonneg]).
+    pose proof (zsum_nonneg _ _ P1) as N1. pose proof (zsum_nonneg _ _ P2) as N2. fold S1 in N1. fold S2 in N2.
+    pose proof ffx_pos as Fx. pose proof ffy_pos as Fy.
+    assert (Z1 : S1 = 0).
+    { pose proof (Rmult_le_pos _ _ (Rlt_le _ _ Fx) N1). pose proof (Rmult_le_pos _ _ (Rlt_le _ _ Fy) N2).
+      assert (ffx * S1 = 0) by lra. destruct (Rmult_integral _ _ H1); lra. }
+    assert (Z2 : S2 = 0).
+    { pose proof (Rmult_le_pos _ _ (Rlt_le _ _ Fx) N1). pose proof (Rmult_le_pos _ _ (Rlt_le _ _ Fy) N2).
+      assert (ffy * S2 = 0) by lra. destruct (Rmult_integral _ _ H1); lra. }
+    intros [i j] [Hi Hj]. cbn [fst snd] in *.
+    (* along x at fixed j, then along y at i = 0 *)
+    pose proof (zsum_zero_terms _ _ P1 Z1 j Hj) as T1. cbv beta in T1.
+    destruct (Rmult_integral _ _ T1) as [T|T]; [pose proof (efact_pos (py sh) Ny j); lra|].
+    pose proof (energy1_zero_const (px sh) Nx (fun i => x (i, j)) Nx_pos T i Hi) as C1. cbv beta in C1.
+    pose proof (zsum_zero_terms _ _ P2 Z2 0%Z ltac:(pose proof Nx_pos; lia)) as T2. cbv beta in T2.
+    destruct (Rmult_integral _ _ T2) as [T'|T']; [pose proof (efact_pos (px sh) Nx 0); lra|].
+    pose proof (energy1_zero_const (py sh) Ny (fun j => x (0%Z, j)) Ny_pos T' j Hj) as C2. cbv beta in C2.
+    rewrite C1, C2. reflexivity.
+  Qed.
+
+  (* two solutions of the same discrete Poisson problem differ by a constant *)
+  Lemma poisson_unique2 x y : (forall p, in_pmf2 sh p -> atimes2 Rops sh x p = atimes2 Rops sh y p) ->
+    exists c, forall p, in_pmf2 sh p -> x p = y p + c.
+  Proof.
+    intros H. set (d := fun q => x q + (-1) * y q).
+    assert (Hd : forall p, in_pmf2 sh p -> atimes2 Rops sh d p = 0).
+    { intros p Hp. unfold d. rewrite atimes2_linear, H by auto. ring. }
+    assert (Q0 : Q2 d d = 0).
+    { pose proof (dot2_atimes d d) as E. unfold dot2 in E.
+      rewrite (lsumR_ext _ (fun _ => 0)) in E.
+      2:{ intros q Hq. apply (in_all_ix2 sh) in Hq. rewrite Hd by auto. ring. }
+      assert (Z0 : forall l : list ix2, lsumR (fun _ => 0) l = 0).
+      { induction l as [|a l IHl]; [reflexivity | rewrite lsumR_cons, IHl; ring]. }
+      rewrite Z0 in E. lra. }
+    exists (d (0, 0)%Z). intros p Hp. pose proof (Q2_zero_const d Q0 p Hp) as C. unfold d in C |- *. lra.
+  Qed.
+End Lap2.
+
+(* ================================================================== the Laplacian of atimes, three dimensions *)
+Section Lap3.
+  Variable sh : shape3 (T:=R).
+  Hypothesis Hnx : (0 < mxg sh)%Z.
+  Hypothesis Hny : (0 < myg sh)%Z.
+  Hypothesis Hnz : (0 < mzg sh)%Z.
+  Notation Nx := (npmf (qx sh) (mxg sh)).
+  Notation Ny := (npmf (qy sh) (myg sh)).
+  Notation Nz := (npmf (qz sh) (mzg sh)).
+  Notation ffx := (1 / (vx sh * vx sh)).
+  Notation ffy := (1 / (vy sh * vy sh)).
+  Notation ffz := (1 / (vz sh * vz sh)).
+  Notation ex := (efact Rops (qx sh) Nx).
+  Notation ey := (efact Rops (qy sh) Ny).
+  Notation ez := (efact Rops (qz sh) Nz).
+
+  Lemma Mx_pos : (0 < Nx)%Z. Proof. apply npmf_pos; auto. Qed.
+  Lemma My_pos : (0 < Ny)%Z. Proof. apply npmf_pos; auto. Qed.
+  Lemma Mz_pos : (0 < Nz)%Z. Proof. apply npmf_pos; auto. Qed.
+  Lemma Mx_np : qx sh = false -> (2 <= Nx)%Z. Proof. intros H. rewrite H. unfold npmf. lia. Qed.
+  Lemma My_np : qy sh = false -> (2 <= Ny)%Z. Proof. intros H. rewrite H. unfold npmf. lia. Qed.
+  Lemma Mz_np : qz sh = false -> (2 <= Nz)%Z. Proof. intros H. rewrite H. unfold npmf. lia. Qed.
+
+  Definition dot3 (x y : ix3 -> R) : R := lsumR (fun p => x p * y p) (all_ix3 sh).
+
+  Definition Q3 (x y : ix3 -> R) : R :=
+    ffx * zsum (fun j => zsum (fun k => ey j * ez k * energy1 (qx sh) Nx (fun i => x (i, j, k)) (fun i => y (i, j, k))) Nz) Ny +
+    ffy * zsum (fun i => zsum (fun k => ex i * ez k * energy1 (qy sh) Ny (fun j => x (i, j, k)) (fun j => y (i, j, k))) Nz) Nx +
+    ffz * zsum (fun i => zsum (fun j => ex i * ey j * energy1 (qz sh) Nz (fun k => x (i, j, k)) (fun k => y (i, j, k))) Ny) Nx.
+
+  Lemma atimes3_eq A i j k :
+    atimes3 Rops sh A (i, j, k) =
+      ey j * ez k * ffx * lap1 Rops (qx sh) Nx (fun i' => A (i', j, k)) i +
+      ex i * ez k * ffy * lap1 Rops (qy sh) Ny (fun j' => A (i, j', k)) j +
+      ex i * ey j * ffz * lap1 Rops (qz sh) Nz (fun k' => A (i, j, k')) k.
+  Proof. reflexivity. Qed.
+
+  Lemma dot3_atimes x y : dot3 x (atimes3 Rops sh y) = - Q3 x y.
+  Proof.
+    unfold dot3, Q3. rewrite lsumR_all_ix3.
+    set (tx := fun i j k => x (i, j, k) * (ey j * ez k * ffx * lap1 Rops (qx sh) Nx (fun i' => y (i', j, k)) i)).
+    set (ty := fun i j k => x (i, j, k) * (ex i * ez k * ffy * lap1 Rops (qy sh) Ny (fun j' => y (i, j', k)) j)).
+    set (tz := fun i j k => x (i, j, k) * (ex i * ey j * ffz * lap1 Rops (qz sh) Nz (fun k' => y (i, j, k')) k)).
+    rewrite (zsum_ext _ (fun i => zsum (fun j => zsum (fun k => tx i j k) Nz) Ny +
+                                  zsum (fun j => zsum (fun k => ty i j k) Nz) Ny +
+                                  zsum (fun j => zsum (fun k => tz i j k) Nz) Ny)).
+    2:{ intros i Hi. rewrite <- !zsum_plus. apply zsum_ext. intros j Hj. rewrite <- !zsum_plus.
+        apply zsum_ext. intros k Hk. rewrite atimes3_eq. unfold tx, ty, tz. ring. }
+    rewrite !zsum_plus.
+    assert (H1 : zsum (fun i => zsum (fun j => zsum (fun k => tx i j k) Nz) Ny) Nx =
+                 - (ffx * zsum (fun j => zsum (fun k => ey j * ez k * energy1 (qx sh) Nx (fun i => x (i, j, k)) (fun i => y (i, j, k))) Nz) Ny)).
+    { rewrite (zsum_swap (fun i j => zsum (fun k => tx i j k) Nz)).
+      transitivity (zsum (fun j => (- ffx) * zsum (fun k => ey j * ez k * energy1 (qx sh) Nx (fun i => x (i, j, k)) (fun i => y (i, j, k))) Nz) Ny);
+        [|rewrite zsum_scal; ring].
+      apply zsum_ext. intros j Hj. rewrite (zsum_swap (fun i k => tx i j k)). rewrite <- zsum_scal.
+      apply zsum_ext. intros k Hk. unfold tx.
+      rewrite (zsum_ext _ (fun i => (ey j * ez k * ffx) * (x (i, j, k) * lap1 Rops (qx sh) Nx (fun i' => y (i', j, k)) i))) by (intros; ring).
+      rewrite zsum_scal.
+      pose proof (lap1_energy (qx sh) Nx (fun i => x (i, j, k)) (fun i => y (i, j, k)) Mx_pos Mx_np) as E. cbv beta in E.
+      rewrite E. ring. }
+    assert (H2 : zsum (fun i => zsum (fun j => zsum (fun k => ty i j k) Nz) Ny) Nx =
+                 - (ffy * zsum (fun i => zsum (fun k => ex i * ez k * energy1 (qy sh) Ny (fun j => x (i, j, k)) (fun j => y (i, j, k))) Nz) Nx)).
+    { transitivity (zsum (fun i => (- ffy) * zsum (fun k => ex i * ez k * energy1 (qy sh) Ny (fun j => x (i, j, k)) (fun j => y (i, j, k))) Nz) Nx);
+        [|rewrite zsum_scal; ring].
+      apply zsum_ext. intros i Hi. rewrite (zsum_swap (fun j k => ty i j k)). rewrite <- zsum_scal.
+      apply zsum_ext. intros k Hk. unfold ty.
+      rewrite (zsum_ext _ (fun j => (ex i * ez k * ffy) * (x (i, j, k) * lap1 Rops (qy sh) Ny (fun j' => y (i, j', k)) j))) by (intros; ring).
+      rewrite zsum_scal.
+      pose proof (lap1_energy (qy sh) Ny (fun j => x (i, j, k)) (fun j => y (i, j, k)) My_pos My_np) as E. cbv beta in E.
+      rewrite E. ring. }
+    assert (H3 : zsum (fun i => zsum (fun j => zsum (fun k => tz i j k) Nz) Ny) Nx =
+                 - (ffz * zsum (fun i => zsum (fun j => ex i * ey j * energy1 (qz sh) Nz (fun k => x (i, j, k)) (fun k => y (i, j, k))) Ny) Nx)).
+    { transitivity (zsum (fun i => (- ffz) * zsum (fun j => ex i * ey j * energy1 (qz sh) Nz (fun k => x (i, j, k)) (fun k => y (i, j, k))) Ny) Nx);
+        [|rewrite zsum_scal; ring].
+      apply zsum_ext. intros i Hi. rewrite <- zsum_scal.
+      apply zsum_ext. intros j Hj. unfold tz.
+      rewrite (zsum_ext _ (fun k => (ex i * ey j * ffz) * (x (i, j, k) * lap1 Rops (qz sh) Nz (fun k' => y (i, j, k')) k))) by (intros; ring).
+      rewrite zsum_scal.
+      pose proof (lap1_energy (qz sh) Nz (fun k => x (i, j, k)) (fun k => y (i, j, k)) Mz_pos Mz_np) as E. cbv beta in E.
+      rewrite E. ring. }
+    rewrite H1, H2, H3. ring.
+  Qed.
+
+  Lemma Q3_sym x y : Q3 x y = Q3 y x.
+  Proof.
+    unfold Q3. f_equal; [f_equal|]; f_equal; apply zsum_ext; intros a Ha; apply zsum_ext; intros b Hb;
+      rewrite energy1_sym; reflexivity.
+  Qed.
+
+  Lemma dot3_comm x y : dot3 x y = dot3 y x.
+  Proof. unfold dot3. apply lsumR_ext. intros; ring. Qed.
+
+  Lemma laplacian_symmetric3 x y : dot3 x (atimes3 Rops sh y) = dot3 (atimes3 Rops sh x) y.
+  Proof. rewrite dot3_atimes, (dot3_comm (atimes3 Rops sh x) y), dot3_atimes, Q3_sym. reflexivity. Qed.
+
+  Lemma laplacian_kernel3 c p : atimes3 Rops sh (fun _ => c) p = 0.
+  Proof. destruct p as [[i j] k]. rewrite atimes3_eq, !lap1_const. ring. Qed.
+
+  Lemma atimes3_linear f g c p :
+    atimes3 Rops sh (fun q => f q + c * g q) p = atimes3 Rops sh f p + c * atimes3 Rops sh g p.
+  Proof.
+    destruct p as [[i j] k]. rewrite !atimes3_eq.
+    rewrite (lap1_linear (qx sh) Nx (fun i' => f (i', j, k)) (fun i' => g (i', j, k))).
+    rewrite (lap1_linear (qy sh) Ny (fun j' => f (i, j', k)) (fun j' => g (i, j', k))).
+    rewrite (lap1_linear (qz sh) Nz (fun k' => f (i, j, k')) (fun k' => g (i, j, k'))). ring.
+  Qed.
+
+  Lemma atimes3_ext f g p : in_pmf3 sh p -> (forall q, in_pmf3 sh q -> f q = g q) ->
+    atimes3 Rops sh f p = atimes3 Rops sh g p.
+  Proof.
+    intros [Hp1 [Hp2 Hp3]] H. destruct p as [[i j] k]. unfold i3x, i3y, i3z in *. cbn [fst snd] in *. rewrite !atimes3_eq.
+    rewrite (lap1_ext (qx sh) Nx (fun i' => f (i', j, k)) (fun i' => g (i', j, k)) i Mx_pos Mx_np Hp1)
+      by (intros a Ha; apply H; unfold in_pmf3, i3x, i3y, i3z; cbn [fst snd]; lia).
+    rewrite (lap1_ext (qy sh) Ny (fun j' => f (i, j', k)) (fun j' => g (i, j', k)) j My_pos My_np Hp2)
+      by (intros a Ha; apply H; unfold in_pmf3, i3x, i3y, i3z; cbn [fst snd]; lia).
+    rewrite (lap1_ext (qz sh) Nz (fun k' => f (i, j, k')) (fun k' => g (i, j, k')) k Mz_pos Mz_np Hp3)
+      by (intros a Ha; apply H; unfold in_pmf3, i3x, i3y, i3z; cbn [fst snd]; lia).
+    reflexivity.
+  Qed.
+
+  Hypothesis Hwx : vx sh <> 0.
+  Hypothesis Hwy : vy sh <> 0.
+  Hypothesis Hwz : vz sh <> 0.
+
+  Lemma ff_pos w : w <> 0 -> 0 < 1 / (w * w).
+  Proof. intros Hw. apply Rdiv_lt_0_compat; [lra|]. pose proof (sq_nonneg w). destruct (Req_dec (w * w) 0) as [E|E]; [apply sq_zero in E; contradiction | lra]. Qed.
+
+  Lemma term3_nonneg (e1 e2 : Z -> R) (E : Z -> Z -> R) n m :
+    (forall a, 0 < e1 a) -> (forall b, 0 < e2 b) -> (forall a b, 0 <= E a b) ->
+    forall a, (0 <= a < n)%Z -> 0 <= zsum (fun b => e1 a * e2 b * E a b) m.
+  Proof.
+    intros H1 H2 HE a Ha. apply zsum_nonneg. intros b Hb.
+    apply Rmult_le_pos; [apply Rmult_le_pos; left; auto | auto].
+  Qed.
+
+  Lemma Q3_nonneg x : 0 <= Q3 x x.
+  Proof.
+    unfold Q3. repeat apply Rplus_le_le_0_compat; (apply Rmult_le_pos; [left; apply ff_pos; auto|]);
+      apply zsum_nonneg; intros a Ha; apply zsum_nonneg; intros b Hb;
+      (apply Rmult_le_pos; [apply Rmult_le_pos; left; apply efact_pos | apply energy1_nonneg]).
+  Qed.
+
+  Lemma laplacian_negative_semidefinite3 x : dot3 x (atimes3 Rops sh x) <= 0.
+  Proof. rewrite dot3_atimes. pose proof (Q3_nonneg x). lra. Qed.
+
+  Lemma three_zero a b c fa fb fc : 0 < fa -> 0 < fb -> 0 < fc -> 0 <= a -> 0 <= b -> 0 <= c ->
+    fa * a + fb * b + fc * c = 0 -> a = 0 /\ b = 0 /\ c = 0.
+  Proof.
+    intros Ha Hb Hc Pa Pb Pc E.
+    pose proof (Rmult_le_pos _ _ (Rlt_le _ _ Ha) Pa). pose proof (Rmult_le_pos _ _ (Rlt_le _ _ Hb) Pb).
+    pose proof (Rmult_le_pos _ _ (Rlt_le _ _ Hc) Pc).
+    assert (E1 : fa * a = 0) by lra. assert (E2 : fb * b = 0) by lra. assert (E3 : fc * c = 0) by lra.
+    repeat split; [destruct (Rmult_integral _ _ E1) | destruct (Rmult_integral _ _ E2) | destruct (Rmult_integral _ _ E3)]; lra.
+  Qed.
+
+  Lemma Q3_zero_const x : Q3 x x = 0 -> forall p, in_pmf3 sh p -> x p = x (0, 0, 0)%Z.
+  Proof.
+    intros E. unfold Q3 in E.
+    set (FX := fun j k => ey j * ez k * energy1 (qx sh) Nx (fun i => x (i, j, k)) (fun i => x (i, j, k))) in *.
+    set (FY := fun i k => ex i * ez k * energy1 (qy sh) Ny (fun j => x (i, j, k)) (fun j => x (i, j, k))) in *.
+    set (FZ := fun i j => ex i * ey j * energy1 (qz sh) Nz (fun k => x (i, j, k)) (fun k => x (i, j, k))) in *.
+    assert (PX : forall j k, 0 <= FX j k)
+      by (intros; unfold FX; apply Rmult_le_pos; [apply Rmult_le_pos; left; apply efact_pos | apply energy1_nonneg]).
+    assert (PY : forall i k, 0 <= FY i k)
+      by (intros; unfold FY; apply Rmult_le_pos; [apply Rmult_le_pos; left; apply efact_pos | apply energy1_nonneg]).
+    assert (PZ : forall i j, 0 <= FZ i j)
+      by (intros; unfold FZ; apply Rmult_le_pos; [apply Rmult_le_pos; left; apply efact_pos | apply energy1_nonneg]).
+    assert (NX : forall j, (0 <= j < Ny)%Z -> 0 <= zsum (fun k => FX j k) Nz) by (intros; apply zsum_nonneg; intros; apply PX).
+    assert (NY : forall i, (0 <= i < Nx)%Z -> 0 <= zsum (fun k => FY i k) Nz) by (intros; apply zsum_nonneg; intros; apply PY).
+    assert (NZ : forall i, (0 <= i < Nx)%Z -> 0 <= zsum (fun j => FZ i j) Ny) by (intros; apply zsum_nonneg; intros; apply PZ).
+    destruct (three_zero _ _ _ _ _ _ (ff_pos _ Hwx) (ff_pos _ Hwy) (ff_pos _ Hwz)
+                (zsum_nonneg _ _ NX) (zsum_nonneg _ _ NY) (zsum_nonneg _ _ NZ) E) as [Z1 [Z2 Z3]].
+    pose proof Mx_pos as Px. pose proof My_pos as Py.
+    intros [[i j] k] [Hi [Hj Hk]]. unfold i3x, i3y, i3z in *. cbn [fst snd] in *.
+    (* along x at (j, k) *)
+    pose proof (zsum_zero_terms _ _ NX Z1 j Hj) as A1. cbv beta in A1.
+    pose proof (zsum_zero_terms _ _ (fun k _ => PX j k) A1 k Hk) as A2. unfold FX in A2.
+    destruct (Rmult_integral _ _ A2) as [A3|A3];
+      [pose proof (efact_pos (qy sh) Ny j); pose proof (efact_pos (qz sh) Nz k); destruct (Rmult_integral _ _ A3); lra|].
+    pose proof (energy1_zero_const (qx sh) Nx (fun i => x (i, j, k)) Mx_pos A3 i Hi) as C1. cbv beta in C1.
+    (* along y at (0, k) *)
+    pose proof (zsum_zero_terms _ _ NY Z2 0%Z ltac:(lia)) as B1. cbv beta in B1.
+    pose proof (zsum_zero_terms _ _ (fun k _ => PY 0%Z k) B1 k Hk) as B2. unfold FY in B2.
+    destruct (Rmult_integral _ _ B2) as [B3|B3];
+      [pose proof (efact_pos (qx sh) Nx 0); pose proof (efact_pos (qz sh) Nz k); destruct (Rmult_integral _ _ B3); lra|].
+    pose proof (energy1_zero_const (qy sh) Ny (fun j => x (0%Z, j, k)) My_pos B3 j Hj) as C2. cbv beta in C2.
+    (* along z at (0, 0) *)
+    pose proof (zsum_zero_terms _ _ NZ Z3 0%Z ltac:(lia)) as D1. cbv beta in D1.
+    pose proof (zsum_zero_terms _ _ (fun j _ => PZ 0%Z j) D1 0%Z ltac:(lia)) as D2. unfold FZ in D2.
+    destruct (Rmult_integral _ _ D2) as [D3|D3];
+      [pose proof (efact_pos (qx sh) Nx 0); pose proof (efact_pos (qy sh) Ny 0); destruct (Rmult_integral _ _ D3); lra|].
+    pose proof (energy1_zero_const (qz sh) Nz (fun k => x (0%Z, 0%Z, k)) Mz_pos D3 k Hk) as C3. cbv beta in C3.
+    rewrite C1, C2, C3. reflexivity.
+  Qed.
+
+  Lemma poisson_unique3 x y : (forall p, in_pmf3 sh p -> atimes3 Rops sh x p = atimes3 Rops sh y p) ->
+    exists c, forall p, in_pmf3 sh p -> x p = y p + c.
+  Proof.
+    intros H. set (d := fun q => x q + (-1) * y q).
+    assert (Hd : forall p, in_pmf3 sh p -> atimes3 Rops sh d p = 0).
+    { intros p Hp. unfold d. rewrite atimes3_linear, H by auto. ring. }
+    assert (Q0 : Q3 d d = 0).
+    { pose proof (dot3_atimes d d) as E. unfold dot3 in E.
+      rewrite (lsumR_ext _ (fun _ => 0)) in E.
+      2:{ intros q Hq. apply (in_all_ix3 sh) in Hq. rewrite Hd by auto. ring. }
+      assert (Z0 : forall l : list ix3, lsumR (fun _ => 0) l = 0).
+      { induction l as [|a l IHl]; [reflexivity | rewrite lsumR_cons, IHl; ring]. }
+      rewrite Z0 in E. lra. }
+    exists (d (0, 0, 0)%Z). intros p Hp. pose proof (Q3_zero_const d Q0 p Hp) as C. unfold d in C |- *. lra.
+  Qed.
+End Lap3.
